@@ -461,11 +461,25 @@ def job_sutton(job):
 
 def replay_unknown_fluid(model):
     from bluebonnet.fluids import gas
-    try:
-        gas.pseudocritical_point_Sutton(0.7, gas.make_nonhydrocarbon_properties(0.01, 0.01, 0.01), "condensate")
-    except ValueError:
-        return False, {"what": "rejected"}
-    return True, {"what": "fluid='condensate' accepted"}
+    # 'condensate' and the near misses of the two accepted names (letter case, white space, separators, truncations): each of
+    # them is another string, hence an unknown fluid type
+    near = ["condensate", "", "gas", "dry", "oil"]
+    for name in ("dry gas", "wet gas"):
+        near += [name.title(), name.upper(), name.capitalize(), name.replace(" ", ""), name.replace(" ", "_"), name.replace(" ", "-"), name.replace(" ", "  "),
+                 " " + name, name + " ", name + "\n", name[:-1], name[1:], name + "es", name.split()[0].upper() + " gas"]
+    accepted = []
+    for f in near:
+        try:
+            gas.pseudocritical_point_Sutton(0.7, gas.make_nonhydrocarbon_properties(0.01, 0.01, 0.01), f)
+        except ValueError:
+            continue
+        except Exception as ex:  # noqa: BLE001
+            accepted.append(f"{f!r} -> {type(ex).__name__} instead of ValueError")
+            continue
+        accepted.append(repr(f))
+    if not accepted:
+        return False, {"what": f"{len(near)} unknown fluid types rejected"}
+    return True, {"what": "unknown fluid type(s) accepted: " + ", ".join(accepted[:6])}
 
 
 def _jobs_extra():
